@@ -64,13 +64,37 @@ def cases(ctx):
                     if ctx.mine(i):
                         yield {'tool': tool, 'direction': direction, 'blocked': blocked, 'salt': rng.randint(0, 10 ** 9),
                                'entry': ('function', 'cli_run')[(rep + i) % 2]}
+    # inputs of more than 1 MiB (buffering thresholds) and the tools' documented default arguments
+    for tool in ('mci_ipm_encode', 'mci_ipm_param_encode', 'mideu convert', 'paramconv'):
+        i += 1
+        if ctx.mine(i):
+            c = {'tool': tool, 'salt': 4242 + ctx.seed, 'entry': 'cli_run' if tool in ('mideu convert', 'paramconv') else 'function', 'big': True}
+            if tool in ('mideu convert', 'paramconv'):
+                c.update(direction='ebcdic', blocked=True)
+            else:
+                c.update(a='cp500', b='latin_1', fin='1014', fout='1014')
+            yield c
+    for entry in ('function', 'cli_run'):
+        for rep in range(2 if quick else 10):
+            i += 1
+            if ctx.mine(i):
+                yield {'tool': 'mci_ipm_encode', 'a': 'cp500', 'b': 'latin_1', 'fin': '1014', 'fout': '1014', 'entry': entry,
+                       'salt': rng.randint(0, 10 ** 9), 'defaults': True}
     if ctx.shard == 0:
         ctx.exhaustive_subspace('6 ordered codec pairs x {vbs,1014}^2 x 2 new tools; 2 directions x {blocked,unblocked} x 2 legacy tools', 48 + 8)
 
 
-def messages(ctx, rng, enc, legacy):
+def messages(ctx, rng, enc, legacy, big=False):
     cfg = msgwork.cfg_of('packaged')
     out = []
+    if big:
+        lll = [54, 72, 111, 127]
+        for k in range(300):
+            x = gen.gen_message(rng, cfg, enc, subset=lll + [2, 3, 4, 12], pds_mode='none', lengths={b: rng.randint(960, 999) for b in lll})
+            if k % 4 == 0:
+                x.update(gen.gen_pds_items(rng, enc, 2, 1))
+            out.append(x)
+        return out
     for _ in range(rng.choice([1, 2, 5, 12, 30])):
         for attempt in range(6):
             mode = rng.choice(['keys', 'keys', 'none', 'raw1']) if legacy else rng.choice(['keys', 'raw', 'none'])
@@ -114,14 +138,21 @@ def run_tool(ctx, case, tool, data, a, b, fin, fout, tag):
         if tool in ('mci_ipm_encode', 'mci_ipm_param_encode'):
             mod = ctx.t_encode if tool == 'mci_ipm_encode' else ctx.t_pencode
             fn = getattr(mod, tool)
+            use_defaults = case.get('defaults') and tag == 'fwd'
             if entry == 'function':
                 out = io.BytesIO()
-                fn(io.BytesIO(data), out_file=out, in_encoding=a, out_encoding=b, in_format=fin, out_format=fout)
+                if use_defaults:
+                    fn(io.BytesIO(data), out_file=out)           # documented defaults: cp500 -> latin_1, 1014 -> 1014
+                else:
+                    fn(io.BytesIO(data), out_file=out, in_encoding=a, out_encoding=b, in_format=fin, out_format=fout)
                 return out.getvalue()
             with open(src, 'wb') as f:
                 f.write(data)
-            mod.cli_run(in_filename=src, out_filename=dst, in_encoding=a, out_encoding=b, in_format=fin, out_format=fout,
-                        no1014blocking=False, debug=False)
+            if use_defaults:
+                mod.cli_run(in_filename=src, out_filename=dst)
+            else:
+                mod.cli_run(in_filename=src, out_filename=dst, in_encoding=a, out_encoding=b, in_format=fin, out_format=fout,
+                            no1014blocking=False, debug=False)
             with open(dst, 'rb') as f:
                 return f.read()
         blocked = fin == '1014'
@@ -163,15 +194,23 @@ def judge(ctx, case):
     cfg = msgwork.cfg_of('packaged')
     is_param = tool in ('mci_ipm_param_encode', 'paramconv')
     if is_param:
-        recs_a = [bytes(rng.randrange(256) for _ in range(rng.choice([1, 5, 80, 246, 1012, rng.randint(1, 3000)])))
-                  for _ in range(rng.choice([1, 3, 10, 40]))]
+        if case.get('big'):
+            recs_a = [rng.randbytes(246 + (k % 7)) for k in range(5000)]
+            ctx.count('conversions of inputs over 1 MiB')
+        else:
+            recs_a = [bytes(rng.randrange(256) for _ in range(rng.choice([1, 5, 80, 246, 1012, rng.randint(1, 3000)])))
+                      for _ in range(rng.choice([1, 3, 10, 40]))]
         f = io.BytesIO()
         with ctx.mciipm.VbsWriter(f, blocked=fin == '1014') as w:
             w.write_many(recs_a)
         original = f.getvalue()
         expect_b = [r.decode(a).encode(b) for r in recs_a]
     else:
-        msgs = messages(ctx, rng, a, legacy)
+        msgs = messages(ctx, rng, a, legacy, case.get('big'))
+        if case.get('big'):
+            ctx.count('conversions of inputs over 1 MiB')
+        if case.get('defaults'):
+            ctx.count('conversions run with the documented default arguments')
         if any('DE55' in x for x in msgs):
             ctx.count('files with binary ICC data')
         if any(k.startswith('PDS') for x in msgs for k in x):
@@ -256,6 +295,10 @@ def require(m):
         for entry in ('function', 'cli_run'):
             if '%s/%s' % (tool, entry) not in te:
                 reasons.append('%s never run through %s' % (tool, entry))
+    if not m['counters'].get('conversions of inputs over 1 MiB'):
+        reasons.append('no input over 1 MiB converted')
+    if not m['counters'].get('conversions run with the documented default arguments'):
+        reasons.append('default arguments never used')
     if len(set(m['classes'].get('codec pairs', ()))) < 6:
         reasons.append('not all 6 ordered codec pairs driven')
     if len(set(m['classes'].get('format pairs', ()))) < 4:
